@@ -105,7 +105,7 @@ fn validate_params(
     scale: &DMatrix<f64>,
 ) -> Result<(), NormalInvWishartError> {
     let ndims = mu.len();
-    if k <= 0.0 {
+    if !(k > 0.0) {
         Err(NormalInvWishartError::KTooLow { k })
     } else if df < ndims {
         Err(NormalInvWishartError::DfLessThanDimensions { df, ndims })
@@ -176,7 +176,7 @@ impl NormalInvWishart {
     /// Set the value of k
     #[inline]
     pub fn set_k(&mut self, k: f64) -> Result<(), NormalInvWishartError> {
-        if k <= 0.0 {
+        if !(k > 0.0) {
             Err(NormalInvWishartError::KTooLow { k })
         } else {
             self.k = k;
